@@ -22,6 +22,7 @@ type cmd struct {
 	op    string // cut | call | rel | relsrv | plan
 	arg   string // call: echo|hold ; rel: actor ; plan: a|u
 	hints []string
+	sat   bool // rel: the goroutine pool is saturated while the released actor runs on
 }
 
 type snap struct {
@@ -50,6 +51,7 @@ type kase struct {
 	class  string
 	accepts string
 	badFlag bool
+	noReader bool
 }
 
 func (w *world) snapshot(pos map[string]string) snap {
@@ -185,7 +187,15 @@ func (k *kase) exec(w *world, c cmd) snap {
 		w.startCall(c.arg)
 	case "rel":
 		if a := w.find(c.arg); a != nil {
-			w.release(a)
+			if c.sat {
+				w.fill()
+				w.release(a)
+				w.waitSaturated()
+				w.unfill()
+				c.hints = append(c.hints, "sat")
+			} else {
+				w.release(a)
+			}
 		}
 	case "relsrv":
 		w.releaseHeld()
@@ -293,6 +303,9 @@ func runCase(k *kase, script []cmd, rng func(int) int, steps int) {
 			sort.Strings(parked)
 			for _, n := range parked {
 				opts = append(opts, cmd{op: "rel", arg: n}, cmd{op: "rel", arg: n})
+				if last.pos[n] == gLocked {
+					opts = append(opts, cmd{op: "rel", arg: n, sat: true})
+				}
 			}
 			if cuts < 3 {
 				opts = append(opts, cmd{op: "cut"})
@@ -340,6 +353,7 @@ func runCase(k *kase, script []cmd, rng func(int) int, steps int) {
 	k.rounds = append([]roundRec(nil), w.rounds...)
 	hung := w.hung
 	k.badFlag = w.badFlag
+	k.noReader = w.noReader
 	if !accOK {
 		k.accepts = fmt.Sprintf("listener accepted %d connections, expected %d", w.accepts, 1+w.reachable)
 	}
@@ -356,6 +370,9 @@ func oracle(st *Stats, idx int, k *kase) {
 	fail := func(key, what string) { st.Fail(idx, key, what, h) }
 	if k.class == "hung" {
 		fail("hang", "an actor neither completed nor parked within the watchdog")
+	}
+	if k.noReader {
+		fail("no-reader-after-redial", "a redial succeeded (status ok, indexed) but no read loop is running on the new connection")
 	}
 	if k.badFlag {
 		fail("hook-flag", "a redial ran the PostDial hooks with isRedial=false")
@@ -662,6 +679,9 @@ func main() {
 		nl := 0
 		for _, c := range k.cmds {
 			st.Count("cmd:" + c.op)
+			if c.sat {
+				st.Count("cmd:rel-pool-saturated")
+			}
 			if c.op == "cut" {
 				nl++
 			}
